@@ -602,12 +602,12 @@ class EffTranslator(base.FnTranslator):
         self.used_exc.add("new_exc")
         return self.raise_exc(ctx, '(new_exc "%s"%%string)' % nm, env, s)
 
-    def handler_test(self, h, ecode):
+    def handler_test(self, h, ecode, env):
         if h.type is None:
             return "true"
         classes = h.type.elts if isinstance(h.type, ast.Tuple) else [h.type]
         names = [dotted(c) for c in classes]
-        if not names or any(nm is None for nm in names):
+        if not names or any(nm is None or nm.split(".")[0] in env for nm in names):
             raise self.err("except clause with other than named exception classes", h)
         self.used_exc.add("isinst")
         tests = ['(isinst %s "%s"%%string)' % (ecode, nm) for nm in names]
@@ -632,16 +632,12 @@ class EffTranslator(base.FnTranslator):
                     if isinstance(nd, (ast.With,)):
                         raise self.err("with inside try", nd)
         keep = list(env)
-        if rest:
-            k2 = self.lift(rest, dict(env), ctx, k)
-            kk = lambda e: k2({v: e[v] for v in keep})
-        else:
-            kk = lambda e: k({v: e[v] for v in e if v in keep})
+        cont = [None]
 
         def handler(ecode, env_h):
             code = self.raise_exc(ctx, ecode, env_h, s)             # no handler matches: the exception goes on
             for h in reversed(s.handlers):
-                test = self.handler_test(h, ecode)
+                test = self.handler_test(h, ecode, env_h)
                 hctx = copy.copy(ctx)
                 hctx.caught = ecode
                 env2 = dict(env_h)
@@ -651,7 +647,8 @@ class EffTranslator(base.FnTranslator):
                         raise self.err("exception variable %r re-uses a bound name" % h.name, h)
                     env2[h.name] = "exc"
                     prefix = "let %s := %s in\n" % (mangle(h.name), ecode)
-                body = prefix + self.block(list(h.body), env2, hctx, kk)
+                body = prefix + self.block(list(h.body), env2, hctx,
+                                           lambda e, nm=h.name: cont[0]({v: t for v, t in e.items() if v != nm}))
                 if test == "true":
                     code = body
                 else:
@@ -666,7 +663,25 @@ class EffTranslator(base.FnTranslator):
             raise self.err("an operation that can raise an untracked exception (IndexError, ZeroDivisionError ...) "
                            "inside a try statement", s)
         tctx.raise_ = no_untracked
-        return self.block(list(s.body), env, tctx, kk)
+        if not rest:
+            cont[0] = lambda e: k({v: e[v] for v in e if v in keep})
+        elif base.exits(s.body) + sum(base.exits(h.body) for h in s.handlers) <= 1:
+            # one path falls out of the try statement: the rest follows it in place
+            cont[0] = lambda e: self.block(rest, e, ctx, k)
+        else:
+            # several paths reach the rest: it becomes a definition of the locals that every one of them has bound
+            # (with one type); a dry run collects them
+            probes = []
+            cont[0] = lambda e: (probes.append(dict(e)), "tt")[1]
+            saved = (list(self.defs), self.nloop, self.ncont, self.nfresh, self.nexc, dict(self.owned))
+            try:
+                self.with_pre(lambda: self.block(list(s.body), env, tctx, cont[0]))
+            finally:
+                self.defs, self.nloop, self.ncont, self.nfresh, self.nexc, self.owned = saved
+            env_k = {v: t for v, t in (probes[0] if probes else env).items() if all(q.get(v) == t for q in probes)}
+            k2 = self.lift(rest, env_k, ctx, k)
+            cont[0] = lambda e: k2({v: e[v] for v in env_k})
+        return self.block(list(s.body), env, tctx, cont[0])
 
     def abstract_loop(self, s, rest, env, ctx, k):
         """a designated loop that is translated on its own (body mode): one event per element, in order"""
